@@ -160,6 +160,22 @@ theorem emit_deframe (tag k : Nat) (hdr body rest : Bytes)
     ∃ h, deframe (emitPartial tag k hdr body ++ rest) = .ok (h, hdr ++ body, rest) ∧ h.tag = tag :=
   deframe_emitPartial tag k hdr body rest hallow hk9 hk30 hh hb
 
+/-- the fixed-length emitter (`MessageBuilder::from_bytes`, `from_file`: the announced length comes
+from the caller / the file's metadata): for EVERY source — also one that yields more or fewer octets
+than were announced — a clean end means one legal packet with exactly the source's octets behind
+the literal header, "with lengths that match the bytes that follow" (D17c) -/
+theorem emit_fixed_legal (lit : Bytes) (n : Nat) (src out rest : Bytes)
+    (hn : lit.length + n < 4294967296) (h : fixedGen lit n src = some out) :
+    src.length = n ∧
+    deframe (out ++ rest) = .ok ({ newFormat := true, tag := 11, len := .fixed (lit ++ src).length }, lit ++ src, rest) :=
+  fixedGen_legal lit n src out rest hn h
+
+theorem emit_fixed_prefix_witness :
+    fixedGenWith false [98, 0, 0, 0, 0, 0] 0 [1, 2, 3] = some [0xCB, 6, 98, 0, 0, 0, 0, 0, 1, 2, 3] ∧
+    fixedGenWith true [98, 0, 0, 0, 0, 0] 0 [1, 2, 3] = none ∧
+    fixedGenWith true [98, 0, 0, 0, 0, 0] 3 [1, 2, 3] = some [0xCB, 9, 98, 0, 0, 0, 0, 0, 1, 2, 3] :=
+  fixedGen_prefix_witness
+
 /-! ## packet streams: where a packet ends depends on its framing alone -/
 
 /-- a fixed-length framing in any admissible length form is a framing in the sense of `Framed` -/
